@@ -511,6 +511,10 @@ def run(ctx):
         k = min(350, n - done)
         run_cases(ctx, gen_cases(ctx, k, depth), fmts)
         done += k
+    for mode in (True, "newtype", "typealias"):
+        if ctx.time_left() > 60:
+            with ctx.wrapped(mode):
+                run_cases(ctx, gen_cases(ctx, 100 if ctx.tier == "quick" else 1500, depth), fmts)
     ctx.assumptions += [
         "the format libraries (json, orjson, PyYAML, msgpack, tomllib/tomli_w) are parameters: parse_F(ser_F(b)) = b on what the format can represent, natives rendered as documented (sampled on every run)",
     ]
